@@ -48,16 +48,38 @@ def two_solver_diff(n=60):
     import importlib
     samples = []
     for hname, cfg, every in (('c06', {'rows': 4}, 7), ('c08', {'n': 5, 'kind': 'array'}, 11), ('c03', {'n': 5, 'k': 3, 'first': 'peak'}, 13),
-                              ('c18', {'fn': 'limit_signal', 'n': 3}, 3)):
+                              ('c18', {'fn': 'limit_signal', 'n': 3}, 3),
+                              # machine-integer encoding (wrap-around as `mod 2^w` on mathematical integers)
+                              ('c05', {'fn': 'monotonicity', 'n': 4, 'rows': 1, 'centre': 'peak', 'dtype': 'int16'}, 5)):
         h = importlib.import_module('harness.' + hname)
         E = symx.Explorer()
-        E.dump, E.dump_max, E.dump_every = [], n // 4, every
+        E.dump, E.dump_max, E.dump_every = [], n // 5, every
 
         def body():
             env.reset()
             h.run(C.SymCtx(E), cfg)
         E.run(body)
         samples += E.dump
+    # the wrap-around encoding itself: int16 / uint8 array arithmetic of the model against the two-case reference
+    E = symx.Explorer()
+    E.dump, E.dump_max, E.dump_every = [], 12, 1
+    wrap_ok = []
+
+    def wrap_body():
+        env.reset()
+        sc = C.SymCtx(E)
+        np = sc.np
+        for dt, lo, hi, m in (('int16', -32768, 32767, 65536), ('uint8', 0, 255, 256)):
+            (a, b), arr = sc.int_signal(['a_' + dt, 'b_' + dt], dt)
+            for got, exact in (((arr[0:1] + arr[1:2]).tolist()[0], a + b), ((arr[0:1] - arr[1:2]).tolist()[0], a - b),
+                               ((-arr[0:1]).tolist()[0], -a)):
+                ref = symx.ite(exact > hi, exact - m, symx.ite(exact < lo, exact + m, exact))
+                wrap_ok.append(sc.prove(got == ref, 'machine-integer wrap-around equals the two-case reference (%s)' % dt))
+    E.run(wrap_body)
+    samples += E.dump
+    if not wrap_ok or not all(wrap_ok) or E.violations:
+        print("HARNESS-ERROR: machine-integer encoding self-test failed")
+        return 3
     d = tempfile.mkdtemp(prefix='vdiff_')
     bad, decided = 0, 0
     try:
